@@ -1034,6 +1034,31 @@ mod e2e {
         got
     }
 
+    /// the destination the forwarder is asked for, for one HTTP/1.1 request head (Forwarded: "forwarded to its target host":
+    /// the authority of the request target, else the Host field; the default port of a forwarded request is 80)
+    pub async fn destination_h1(request_line_target: &str, host_field: Option<&str>) -> Vec<String> {
+        let core = Box::leak(Box::new(make_core(&CoreOpts::default())));
+        let origin = Arc::new(Origin { segments: vec![b"HTTP/1.1 204 No Content\r\n\r\n".to_vec()], rx: Default::default(), connects: Default::default() });
+        set_forwarder(Some(origin.clone()));
+        let (mut client, server) = tokio::io::duplex(1 << 16);
+        let core2: &'static trusttunnel::core::Core = core;
+        let h = tokio::spawn(async move {
+            let _ = serve_tunnel(core2, VProto::Http1, server, peer_addr(), "localhost".into(), None).await;
+        });
+        let mut req = format!("GET {} HTTP/1.1\r\n", request_line_target);
+        if let Some(hf) = host_field { req.push_str(&format!("Host: {}\r\n", hf)); }
+        req.push_str("User-Agent: verif-e2e\r\n\r\n");
+        let _ = client.write_all(req.as_bytes()).await;
+        let mut b = [0u8; 256];
+        let _ = tokio::time::timeout(Duration::from_secs(5), client.read(&mut b)).await;
+        tokio::time::sleep(Duration::from_millis(20)).await;
+        let c = origin.connects.lock().unwrap().clone();
+        h.abort();
+        let _ = h.await;
+        set_forwarder(None);
+        c
+    }
+
     pub async fn run_h1(sc: &Scenario, segments: Vec<Vec<u8>>, post_body: Option<&[u8]>) -> Got {
         let core = Box::leak(Box::new(make_core(&CoreOpts::default())));
         let origin = Arc::new(Origin { segments, rx: Default::default(), connects: Default::default() });
@@ -1127,6 +1152,18 @@ fn segmentations(wire: &[u8], sc: &Scenario, thorough: bool) -> Vec<Vec<Vec<u8>>
 
 fn end_to_end(rep: &mut Report, scs: &[Scenario], thorough: bool) {
     let rt = tokio::runtime::Builder::new_current_thread().enable_all().start_paused(true).build().unwrap();
+    // where a forwarded request goes: absolute-form and origin-form (+ Host) targets, with and without a port
+    for (target, host, want) in [("http://origin.test/p", Some("origin.test"), "origin.test:80"), ("http://origin.test:8080/p", Some("origin.test:8080"), "origin.test:8080"),
+                                 ("/p/q?x=1", Some("origin.test"), "origin.test:80"), ("/p", Some("origin.test:8080"), "origin.test:8080"), ("http://203.0.113.9/p", None, "203.0.113.9:80")] {
+        rep.eval();
+        let got = rt.block_on(e2e::destination_h1(target, host));
+        let flat: Vec<String> = got.iter().map(|c| c.replace("Some(", "").replace("None", "").replace(['(', ')', '"', ' '], "").replace(',', ":")).collect();
+        rep.nontrivial(format!("e2e-destination|{}|{:?}", target, host));
+        if flat != vec![want.to_string()] {
+            rep.violation_with(format!("forwarded:destination:{}", if target.starts_with('/') { "origin-form" } else { "absolute-form" }),
+                format!("GET {} (Host: {:?}) was forwarded to {:?}, expected {}", target, host, got, want), || json!({"kind": "destination", "target": target, "host": host, "connects": got}));
+        }
+    }
     let pick: Vec<&str> = if thorough {
         scs.iter().filter(|s| !s.has_junk).map(|s| s.name.as_str()).filter(|n| !n.starts_with('g') || ["g", "g1", "g3", "g23", "g312", "g333"].contains(n)).collect()
     } else {
